@@ -399,6 +399,25 @@ fn verif_rt_unsync() {
                 let (at2, f2) = run_history(cfg, &s).unwrap(); report(&cfg, &s, at2, &f2); findings += 1; }
         }
     }
+    // directed part: more entries than one maintenance batch (EVICTION_BATCH_SIZE = 100) expire at once, so that lookups and
+    // iteration meet expired entries that the purge has not reached yet
+    for cfg in &cfgs {
+        if findings >= 6 { break; }
+        if cfg.ttl.is_none() && cfg.tti.is_none() { continue; }
+        if cfg.cap.is_some() && cfg.cap != Some(6) { continue; }
+        let cfg = Cfg { cap: if cfg.cap.is_some() { Some(1000) } else { None }, ..*cfg };
+        for tail in [vec![Op::Get(149), Op::Get(3)], vec![Op::Contains(148), Op::Contains(2)], vec![Op::Iter], vec![Op::Insert(149, 1), Op::Get(149)], vec![Op::Invalidate(147), Op::Iter],
+                     vec![Op::InvalidateIf(1), Op::Iter]] {
+            for dt in [10u64, 15, 5] {
+                let mut seq: Vec<Op> = (0..150u8).map(|k| Op::Insert(k, k % 4)).collect();
+                seq.push(Op::Get(0)); seq.push(Op::Advance(dt)); seq.extend(tail.iter().cloned());
+                histories += 1; steps += seq.len() as u64;
+                if let Some((at, f)) = run_history(cfg, &seq) {
+                    if !seen_tags.contains(&f.tags) { seen_tags.push(f.tags); report(&cfg, &seq[at.saturating_sub(2)..], at.min(2), &f); findings += 1; }
+                }
+            }
+        }
+    }
     println!("RT-SUMMARY harness=unsync tier={} seed={} histories={} steps={} configs={} alphabet={} exhaustive_len={} sampled={}x{} findings={}",
         tier, seed, histories, steps, cfgs.len(), ops.len(), exh_len, rnd_n, rnd_len, findings);
     assert!(findings == 0, "runtime contract check found {} violation(s)", findings);
